@@ -387,11 +387,64 @@ func (p *c16) checkErrors(r *core.CaseResult) {
 		}
 		r.Nontrivial = true
 	}
+	p.checkSequences(r)
+}
+
+// checkSequences: SanitizeSQL is a function of its arguments only.  Every rejected call (each
+// error kind, with text already emitted before the failure) followed by every accepted call: the
+// accepted call's output must be what it was before any call had been rejected.
+func (p *c16) checkSequences(r *core.CaseResult) {
+	type call struct {
+		tmpl string
+		args []any
+	}
+	good := []call{
+		{"SELECT $1 AS v FROM dual", []any{"good"}},
+		{"SELECT $1 AS v FROM dual", []any{"it's \\ here"}},
+		{"SELECT id FROM t WHERE name = $1 AND id > $2", []any{"n", int64(0)}},
+		{"SELECT $2 AS w, $1 AS v FROM dual", []any{1.5, true}},
+		{"SELECT 1 AS one FROM dual", nil},
+	}
+	bad := []call{
+		{"SELECT $1 AS v FROM dual -- ", []any{"evil", "extra"}},
+		{"SELECT 'x' AS a, $1 AS v, $2 AS w FROM dual", []any{"evil"}},
+		{"SELECT $1 AS v, $0 AS z FROM dual", []any{"evil"}},
+		{"SELECT $1 AS v, $2 AS w FROM dual", []any{"evil", struct{}{}}},
+		{"SELECT $3 AS v FROM dual", []any{"evil"}},
+	}
+	base := make([]string, len(good))
+	for i, g := range good {
+		s, err, pan := sanitizeNoPanic(g.tmpl, g.args...)
+		r.Execs++
+		if err != nil || pan != "" {
+			r.Fail("C16|sequence|baseline", fmt.Sprintf("SanitizeSQL(%q, %v) failed: %v %s", g.tmpl, g.args, err, pan), nil)
+			return
+		}
+		base[i] = s
+	}
+	for round := 0; round < 3; round++ {
+		for bi, b := range bad {
+			for gi, g := range good {
+				_, berr, bpan := sanitizeNoPanic(b.tmpl, b.args...)
+				s, err, pan := sanitizeNoPanic(g.tmpl, g.args...)
+				r.Execs += 2
+				if bpan != "" || berr == nil {
+					r.Fail("C16|sequence|rejected-call", fmt.Sprintf("SanitizeSQL(%q, %v): expected an error, got %v %s", b.tmpl, b.args, berr, bpan), nil)
+					continue
+				}
+				if pan != "" || err != nil || s != base[gi] {
+					r.Fail("C16|sequence|output-depends-on-earlier-call", fmt.Sprintf("after the rejected call SanitizeSQL(%q, %v), SanitizeSQL(%q, %v) returns %q (%v %s); before it returned %q", b.tmpl, b.args, g.tmpl, g.args, s, err, pan, base[gi]), map[string]any{"rejected_template": b.tmpl, "template": g.tmpl, "bad_index": bi})
+					continue
+				}
+				r.Nontrivial = true
+			}
+		}
+	}
 }
 
 func (p *c16) Meta() core.Meta {
 	return core.Meta{
-		Rule:        "string arguments: for each of 6 templates (echo, WHERE =, WHERE = AND, IN list with 2 placeholders, two select items, function arguments) every string of length 1..3 (thorough 4) over the 17-character alphabet {a ' \\ \" ` - # / * ; space NUL newline % $ 1 é} plus classic injection payloads: sanitized text must parse, have the template's statement shape with one string literal per placeholder whose value is the argument, and return through Exec exactly the rows a literal comparison selects; int64/float64/bool/NULL boundary values echo; 8 quoted contexts ($1 inside '...', '...''...', '...\\'...', \"...\", `...`, --, #, /* */) leave the quoted $1 alone; missing / unused / $0 / overflow / unsupported-type arguments are errors, not panics. non-trivial = the argument contains a character that is special in the dialect",
+		Rule:        "string arguments: for each of 6 templates (echo, WHERE =, WHERE = AND, IN list with 2 placeholders, two select items, function arguments) every string of length 1..3 (thorough 4) over the 17-character alphabet {a ' \\ \" ` - # / * ; space NUL newline % $ 1 é} plus classic injection payloads: sanitized text must parse, have the template's statement shape with one string literal per placeholder whose value is the argument, and return through Exec exactly the rows a literal comparison selects; int64/float64/bool/NULL boundary values echo; 8 quoted contexts ($1 inside '...', '...''...', '...\\'...', \"...\", `...`, --, #, /* */) leave the quoted $1 alone; missing / unused / $0 / overflow / unsupported-type arguments are errors, not panics; every rejected call followed by every accepted call leaves the accepted call's output unchanged (5 x 5 sequences, 3 rounds). non-trivial = the argument contains a character that is special in the dialect",
 		Assumptions: []string{"the dialect is the one genql.Parse accepts (MySQL: backslash escapes in string literals, backtick identifiers, double-quoted strings, # and -- comments)", "statement shape = sqlparser.String of the statement with every literal masked"},
 		Bounds:      map[string]any{"alphabet": len(p.alpha), "max_len": p.maxLen, "templates": len(c16Templates), "quoted_contexts": len(c16Quoted)},
 		Exhaustive:  true,
